@@ -8,28 +8,49 @@ Local Open Scope N_scope.
 
 Definition blen (bs : bytes) : N := N.of_nat (length bs).
 
-(* The comparison is on N, so a huge declared length never becomes a huge nat. *)
-Definition takeN (n : N) (bs : bytes) : option (bytes * bytes) :=
-  if blen bs <? n then None
-  else Some (firstn (N.to_nat n) bs, skipn (N.to_nat n) bs).
+(* One pass over the bytes taken (never over the whole rest, and a huge declared
+   length never becomes a huge nat): the executable models stay linear. *)
+Fixpoint take_go (bs : bytes) (n : N) : option (bytes * bytes) :=
+  if n =? 0 then Some ([], bs)
+  else match bs with
+       | [] => None
+       | x :: r => match take_go r (N.pred n) with
+                   | Some (a, b) => Some (x :: a, b)
+                   | None => None
+                   end
+       end.
+Definition takeN (n : N) (bs : bytes) : option (bytes * bytes) := take_go bs n.
+
+Lemma takeN_spec n bs :
+  takeN n bs = if blen bs <? n then None else Some (firstn (N.to_nat n) bs, skipn (N.to_nat n) bs).
+Proof.
+  unfold takeN, blen. revert n. induction bs as [|x r IH]; intros n; cbn [take_go].
+  - destruct (N.eqb_spec n 0) as [->|Hn]; [reflexivity|].
+    destruct (N.ltb_spec (N.of_nat (length (@nil Byte.byte))) n) as [|H]; [reflexivity | cbn in H; lia].
+  - destruct (N.eqb_spec n 0) as [->|Hn]; [reflexivity|].
+    rewrite IH. cbn [length].
+    destruct (N.ltb_spec (N.of_nat (length r)) (N.pred n)) as [H1|H1];
+      destruct (N.ltb_spec (N.of_nat (S (length r))) n) as [H2|H2]; try lia; [reflexivity|].
+    replace (N.to_nat n) with (S (N.to_nat (N.pred n))) by lia. reflexivity.
+Qed.
 
 Lemma takeN_app a r n : blen a = n -> takeN n (a ++ r) = Some (a, r).
 Proof.
-  unfold takeN, blen. intros <-. rewrite app_length, Nat2N.id.
+  rewrite takeN_spec. unfold blen. intros <-. rewrite app_length, Nat2N.id.
   destruct (N.ltb_spec (N.of_nat (length a + length r)) (N.of_nat (length a))); [lia|].
   rewrite firstn_app_exact, skipn_app_exact by reflexivity. reflexivity.
 Qed.
 
 Lemma takeN_inv n bs a r : takeN n bs = Some (a, r) -> bs = a ++ r /\ blen a = n.
 Proof.
-  unfold takeN, blen. destruct (N.ltb_spec (N.of_nat (length bs)) n) as [H|H]; [discriminate|].
+  rewrite takeN_spec. unfold blen. destruct (N.ltb_spec (N.of_nat (length bs)) n) as [H|H]; [discriminate|].
   intros E. injection E as <- <-. split; [symmetry; apply firstn_skipn|].
   rewrite firstn_length. lia.
 Qed.
 
 Lemma takeN_none n bs : takeN n bs = None <-> blen bs < n.
 Proof.
-  unfold takeN. destruct (N.ltb_spec (blen bs) n); split; intros; try discriminate; try lia; reflexivity.
+  rewrite takeN_spec. destruct (N.ltb_spec (blen bs) n); split; intros; try discriminate; try lia; reflexivity.
 Qed.
 
 Lemma blen_app a b : blen (a ++ b) = blen a + blen b.
